@@ -164,6 +164,31 @@ pub fn run_c11(cx: &mut Cx) {
             }
         });
     }
+    // ... and for interface identifiers of the caller's own, among them identifiers that themselves
+    // begin with the label the blind interface prepends ("BLIND_"): the blind part is derived under
+    // "BLIND_" || api_id whatever api_id looks like, so the merged list equals the model's and
+    // repeats nothing (a helper that adds the label only when it is not there yet derives both
+    // halves under the same identifier)
+    {
+        let s = Suite::from_idx(cx.ch.choose("pp_suite", 2));
+        let (n, m) = (1 + cx.ch.choose("pp_n", 5) as usize, 1 + cx.ch.choose("pp_m", 5) as usize);
+        let kind = cx.ch.forced("pp_custom_api", 6, cx.run_index / 2);
+        let fresh = zksim_core::prng::bytes_for(seed, b"pp-api-id", cx.run_index, 12);
+        let node = if cx.ch.chance("pp_at_b", 1, 2) { b } else { a };
+        let api: Vec<u8> = match kind { 0 => [b"BLIND_".as_slice(), api::api_id(s, true)].concat(), 1 => b"BLIND_AUCTION_V1_".to_vec(), 2 => b"BLIND_".to_vec(), 3 => [b"BLIND_BLIND_".as_slice(), &fresh].concat(), 4 => [b"blind_".as_slice(), &fresh].concat(), _ => fresh };
+        if kind <= 3 { cx.count("probe.interface_id_that_begins_with_the_blind_label"); }
+        let api2 = api.clone();
+        cx.step(node, "prepare_parameters", StepOpts::default(), move || api::merged_blind_generators_for(s, n, m, Some(&api)), move |cx, st| {
+            cx.eval(&[b"pp-custom", s.name().as_bytes(), &[kind as u8, n as u8, m as u8]], true);
+            let Ok(Ok(g)) = st.out else { cx.log("prepare_parameters failed".into()); return; };
+            use group::Curve;
+            let mut want: Vec<[u8; 48]> = rm::create_generators(s, n, &api2).unwrap().iter().map(|p| p.to_affine().to_compressed()).collect();
+            want.extend(rm::create_generators(s, m, &[b"BLIND_".as_slice(), &api2].concat()).unwrap().iter().map(|p| p.to_affine().to_compressed()));
+            let key = format!("{}/prepare_parameters({n},{m}) under a custom api_id (kind {kind})", s.name());
+            if g != want { cx.violation("C11", "generators/blind-list-differs-from-model-for-custom-api-id".into(), format!("{key}: first difference at {:?}", g.iter().zip(&want).position(|(x, y)| x != y))); }
+            for (i, p) in g.iter().enumerate() { if g[..i].contains(p) { cx.violation("C11", "generators/interfaces-share-a-point".into(), format!("{key}: point {i} (blind part starts at {n}) repeats point {}", g[..i].iter().position(|q| q == p).unwrap())); break; } }
+        });
+    }
     // blind-interface generator lists under a forced overlap: a long request (many committed
     // messages) parked inside generator creation while the other node asks for medium ones, a
     // longer one afterwards; every merged list must equal the model's
